@@ -135,3 +135,10 @@ Definition spec_from_tokens (ts : list tok) : option (list Z) :=
     then Some (sortZ (concat (map denote es)))
     else None
   end.
+
+(* C13: "sorted distinct integers" *)
+Fixpoint strictly_increasing (l : list Z) : Prop :=
+  match l with
+  | a :: ((b :: _) as t) => a < b /\ strictly_increasing t
+  | _ => True
+  end.
